@@ -92,8 +92,38 @@ struct cross<tl<A0, A1, A...>, tl<B...>> {
 template <typename L1, typename L2>
 using cross_t = typename cross<L1, L2>::type;
 
+/// spelling of a type: specialised (by the X-macros below) for every type of the unary zoos; every other
+/// type (binary / n-ary sub-zoos of round 2) is spelled by the compiler (__PRETTY_FUNCTION__, deterministic)
 template <typename T>
-struct tname; // specialised for every zoo type
+struct tname {
+    static constexpr auto make()
+    {
+        constexpr char const* pf = __PRETTY_FUNCTION__;
+        std::array<char, 160> a{};
+        std::size_t i = 0;
+        while (pf[i] != 0 && !(pf[i] == 'T' && pf[i + 1] == ' ' && pf[i + 2] == '=' && pf[i + 3] == ' ')) { ++i; }
+        std::size_t o = 0;
+        if (pf[i] != 0) {
+            i += 4;
+            while (pf[i] != 0 && pf[i] != ']' && pf[i] != ';' && o + 1 < a.size()) { a[o++] = pf[i++]; }
+            // "[3]" inside an array type closes with ']' as well: re-open until the final ']' / ';'
+            while (pf[i] != 0 && o + 1 < a.size()) {
+                std::size_t j = i;
+                bool more     = false;
+                while (pf[j] != 0) {
+                    if (pf[j] == ']' && pf[j + 1] != 0) { more = true; }
+                    ++j;
+                }
+                if (!more || pf[i] == ';') { break; }
+                a[o++] = pf[i++];
+            }
+        }
+        a[o] = 0;
+        return a;
+    }
+    static constexpr auto storage      = make();
+    static constexpr char const* value = storage.data();
+};
 
 // clang-format off
 // 1. arithmetic, void, nullptr (cv variants of a few of them are in the core, the rest in EXT)
@@ -174,38 +204,129 @@ struct tname; // specialised for every zoo type
     X(zoo::Agg volatile) X(zoo::Agg const volatile) X(zoo::ThrowCopy const) X(zoo::TrivDefUserCopy const) \
     X(zoo::Incomplete const) X(zoo::Base*) X(zoo::Derived*) X(zoo::Derived&) X(zoo::Base const&) \
     X(zoo::AggDerived) X(zoo::AggDerived&) X(bool (*)(int, int)) X(zoo::Agg const*)
+// round 2: types missing from the first zoo.  R2_CORE is the part that also runs in the quick tier.
+#define C15_ZOO_R2_CORE(X)                                                                                \
+    X(__int128) X(unsigned __int128 const) X(std::nullptr_t volatile)                                     \
+    X(zoo::UnscopedBool) X(zoo::UnscopedChar) X(zoo::UnscopedNeg) X(zoo::ScopedNeg) X(zoo::ScopedC16 const) \
+    X(int (zoo::Agg::*)(int, ...) const volatile&& noexcept) X(int zoo::Incomplete::*)                    \
+    X(zoo::Agg const volatile&&) X(int (&&)[]) X(void (zoo::Agg::*&&)() const)                            \
+    X(int const[2][3]) X(zoo::PrivateDtor[2]) X(zoo::Immovable[2]) X(zoo::NoSwap[2]) X(int[][2][3])       \
+    X(void() volatile&&) X(int&()) X(void(zoo::Incomplete))                                               \
+    X(zoo::Diamond) X(zoo::VDiamond) X(zoo::DerivedProt) X(zoo::EmptySameFirst) X(zoo::Over)              \
+    X(zoo::TailPad) X(zoo::BitFull) X(zoo::AggNSDMI) X(zoo::CondExplicit<int>) X(zoo::CondExplicit<char>) \
+    X(zoo::FromAny) X(zoo::NonConstCopy) X(zoo::VolatileCopy) X(zoo::RefQualAssign) X(zoo::ConstAssign)   \
+    X(zoo::DtorNoexceptExpr) X(zoo::ThrowDtorMember) X(zoo::DeletedDtorMember) X(zoo::ToIntNonConst)      \
+    X(zoo::ToIntRvalue) X(zoo::ToAny) X(zoo::EqNonBool) X(zoo::EqNonConst) X(zoo::EqExplicitBool)         \
+    X(zoo::GenericFunctor) X(zoo::RefQualFunctor) X(zoo::ThrowingAdlSwap) X(zoo::MemberSwapOnly)          \
+    X(zoo::UnionDeleted) X(zoo::UnionWithCtor) X(zoo::LambdaGeneric) X(zoo::LambdaMutable)                \
+    X(zoo::NonTrivial volatile) X(zoo::UnionNonTriv const)
+
+#define C15_ZOO_R2_EXT(X)                                                                                 \
+    X(unsigned __int128) X(__int128 const volatile) X(__int128*) X(__int128&) X(__int128[2])              \
+    X(std::nullptr_t const volatile) X(std::nullptr_t&&) X(std::nullptr_t const&) X(std::nullptr_t[2])    \
+    X(std::nullptr_t*) X(bool&) X(long double&&) X(bool[2]) X(long double[2]) X(char8_t*) X(wchar_t const&) \
+    X(zoo::UnscopedBig) X(zoo::UnscopedEmpty) X(zoo::ScopedU64) X(zoo::Opaque) X(zoo::ScopedC16)          \
+    X(zoo::UnscopedBool const) X(zoo::UnscopedChar volatile) X(zoo::UnscopedNeg const volatile)           \
+    X(zoo::ScopedNeg const) X(zoo::ScopedU64 volatile) X(zoo::Opaque const volatile) X(zoo::UnscopedBig const) \
+    X(zoo::ScopedBool const) X(zoo::ScopedLL volatile) X(zoo::UnscopedU8 const volatile)                  \
+    X(zoo::UnscopedNeg&) X(zoo::ScopedNeg*) X(zoo::Scoped[]) X(zoo::UnscopedBool[2])                      \
+    X(void volatile*) X(int***) X(zoo::Incomplete**) X(int (*)[2][3]) X(void (*)(...) noexcept)           \
+    X(int (* const volatile)(int)) X(void (zoo::Incomplete::*)()) X(int zoo::UnionTriv::*)                \
+    X(void (zoo::UnionTriv::*)()) X(int zoo::Agg::* volatile) X(int zoo::Agg::* const volatile)           \
+    X(void (zoo::Agg::*)() volatile&) X(void (zoo::Agg::*)() const volatile&& noexcept)                   \
+    X(void (zoo::Agg::*)(...) noexcept) X(void (zoo::Agg::* const volatile)() &) X(zoo::Agg* zoo::Agg::*) \
+    X(void (*zoo::Agg::*)()) X(int (zoo::Diamond::*)(int))                                                \
+    X(int const (&&)[2][3]) X(zoo::Agg volatile&) X(zoo::UnionTriv&) X(zoo::Lambda&) X(zoo::Scoped const&) \
+    X(void*&) X(void* const&) X(int zoo::Agg::* const&) X(int (&)(int, ...)) X(void (* const&)())         \
+    X(zoo::PrivateDtor&) X(zoo::Immovable&&) X(zoo::Abstract&&) X(zoo::Incomplete const&) X(zoo::Incomplete&&) \
+    X(zoo::NonTrivial&) X(zoo::NonTrivial&&) X(zoo::ThrowDtor&) X(zoo::Poly const&)                       \
+    X(int[1][1]) X(zoo::Agg[2][3]) X(zoo::Abstract* [2]) X(zoo::ProtectedDtor[2]) X(zoo::UnionTriv[2])    \
+    X(zoo::Lambda[2]) X(int* const[2]) X(int (*[2])[3]) X(void (*[])()) X(zoo::Agg volatile[2])           \
+    X(zoo::Incomplete* [2]) X(zoo::AdlSwap[2]) X(zoo::ExplicitCopy[2]) X(zoo::CopyOnly[2])                \
+    X(zoo::ThrowCopy[2]) X(zoo::ThrowMove[3]) X(zoo::NothrowAll[2]) X(zoo::Poly[2]) X(zoo::NoAssign[2])   \
+    X(zoo::ConstMember[2]) X(zoo::UnionNonTriv[2]) X(zoo::ThrowingAdlSwap[2]) X(zoo::Immovable[2][2])     \
+    X(zoo::ThrowDtor[]) X(zoo::PrivateDtor[]) X(zoo::ThrowDtor[2][2]) X(zoo::Over[2])                     \
+    X(void() volatile&) X(void() const volatile& noexcept) X(int(int, ...) const) X(void(...) noexcept)   \
+    X(zoo::Agg()) X(zoo::Abstract&(zoo::Incomplete&)) X(void(int[3])) X(void(void())) X(void (*())())     \
+    X(int (&(int))[3]) X(void(int) &&) X(int(...) volatile)                                               \
+    X(zoo::Left) X(zoo::VLeft) X(zoo::TwoBases) X(zoo::EmptyBaseMember) X(zoo::FinalVDtor)                \
+    X(zoo::ArrMember) X(zoo::WithBool) X(zoo::WithPtr) X(zoo::WithLongDouble) X(zoo::AggOfNonTrivial)     \
+    X(zoo::CondExplicit<long>) X(zoo::FromArith) X(zoo::FromTwoInts) X(zoo::ExplicitFromTwo)              \
+    X(zoo::FromInitPtr) X(zoo::DefaultedAll) X(zoo::ProtectedCtor) X(zoo::PrivateCopy)                    \
+    X(zoo::DeletedMoveAssign) X(zoo::AssignFromInt) X(zoo::AssignReturnsVoid) X(zoo::ThrowDtorBase)       \
+    X(zoo::VirtualPrivateDtor) X(zoo::ToIntLvalue) X(zoo::ToIntRef) X(zoo::ToBasePtr) X(zoo::ToFnPtr)     \
+    X(zoo::ToAggRef) X(zoo::ExplicitToInt) X(zoo::AmbiguousToNumber) X(zoo::EqWithInt) X(zoo::EqDeleted)  \
+    X(zoo::BoolLikeNoNot) X(zoo::MutableFunctor) X(zoo::DeletedCall) X(zoo::OverloadFunctor)              \
+    X(zoo::VariadicFunctor) X(zoo::DefaultArgFunctor) X(zoo::ReturnsImmovable) X(zoo::ReturnsRef)         \
+    X(zoo::ReturnsBoolLike) X(zoo::TakesRef) X(zoo::TakesRvalueRef) X(zoo::TakesMoveOnly) X(zoo::PrivateCall) \
+    X(zoo::SwapWithInt) X(zoo::OverloadedAddr) X(zoo::UnionConstMember) X(zoo::UnionOfArrays)             \
+    X(zoo::LambdaNoexcept) X(zoo::LambdaRefRet)                                                           \
+    X(zoo::MoveOnly volatile) X(zoo::Lambda const) X(zoo::Abstract volatile) X(zoo::PolyFinal const)      \
+    X(zoo::DeletedDtor const) X(zoo::ThrowDtor const) X(zoo::Diamond const) X(zoo::Over const volatile)   \
+    X(zoo::UnionDeleted const) X(zoo::NonConstCopy const) X(zoo::VolatileCopy volatile)                   \
+    X(zoo::ToIntNonConst const) X(zoo::RefQualFunctor const) X(zoo::ConstAssign const)                    \
+    X(zoo::Diamond*) X(zoo::Left*) X(zoo::VDiamond&) X(zoo::DerivedProt*) X(zoo::DerivedPriv&)
 // clang-format on
 
-#define C15_X_NAME(...)                                                                                                \
+#define C15_X_NAME(...)                                                                                             \
     template <>                                                                                                        \
     struct tname<__VA_ARGS__> {                                                                                        \
         static constexpr char const* value = #__VA_ARGS__;                                                             \
     };
 C15_ZOO_CORE(C15_X_NAME)
 C15_ZOO_EXT(C15_X_NAME)
+C15_ZOO_R2_CORE(C15_X_NAME)
+C15_ZOO_R2_EXT(C15_X_NAME)
 #undef C15_X_NAME
 
 #define C15_X_LIST(...) , __VA_ARGS__
-using zoo_core = typename tl_tail<tl<drop_me C15_ZOO_CORE(C15_X_LIST)>>::type;
-using zoo_ext  = typename tl_tail<tl<drop_me C15_ZOO_EXT(C15_X_LIST)>>::type;
-using zoo_full = tl_cat_t<zoo_core, zoo_ext>;
+using zoo_core    = typename tl_tail<tl<drop_me C15_ZOO_CORE(C15_X_LIST)>>::type;
+using zoo_ext     = typename tl_tail<tl<drop_me C15_ZOO_EXT(C15_X_LIST)>>::type;
+using zoo_full    = tl_cat_t<zoo_core, zoo_ext>;
+using zoo_r2_core = typename tl_tail<tl<drop_me C15_ZOO_R2_CORE(C15_X_LIST)>>::type;
+using zoo_r2_ext  = typename tl_tail<tl<drop_me C15_ZOO_R2_EXT(C15_X_LIST)>>::type;
+using zoo_r2_full = tl_cat_t<zoo_r2_core, zoo_r2_ext>;
 #undef C15_X_LIST
 
-#if defined(C15_QUICK_ZOO)
+// C15_R2_ZOO selects the round-2 zoo (separate translation units, so that the first zoo's units keep
+// their compile time): with C15_QUICK_ZOO its core part only.
+#if defined(C15_R2_ZOO) && defined(C15_QUICK_ZOO)
+using zoo_t = zoo_r2_core;
+    #define C15_JOB(NAME) NAME "/zoo2"
+#elif defined(C15_R2_ZOO)
+using zoo_t = zoo_r2_full;
+    #define C15_JOB(NAME) NAME "/zoo2"
+#elif defined(C15_QUICK_ZOO) && defined(C15_ADD_R2)
+using zoo_t = tl_cat_t<zoo_core, zoo_r2_core>; // one unit for both quick zoos (cheap column sets only)
+    #define C15_JOB(NAME) NAME
+#elif defined(C15_QUICK_ZOO)
 using zoo_t = zoo_core;
+    #define C15_JOB(NAME) NAME
 #else
 using zoo_t = zoo_full;
+    #define C15_JOB(NAME) NAME
 #endif
 
 // ---------------------------------------------------------------------------------------
 // class of a case: the type category of each argument, computed with std only
 // ---------------------------------------------------------------------------------------
+/// __int128 / unsigned __int128 (cv-qualified or not).  libstdc++ 12 in strict -std=c++2b mode does not treat
+/// them as integer types (is_integral, is_arithmetic, is_scalar, is_fundamental are false, is_compound is true,
+/// make_signed and numeric_limits do not know them), which contradicts [basic.fundamental]: in those columns the
+/// ORACLE is wrong and the cells are skipped (`int128_quirk`).  Everything else (is_object, cv, transformations,
+/// class properties, operations) is well defined by the oracle and compared.
+template <typename T>
+inline constexpr bool is_int128 = std::is_same_v<std::remove_cv_t<T>, __int128> || std::is_same_v<std::remove_cv_t<T>, unsigned __int128>;
+template <typename T>
+inline constexpr bool int128_quirk = is_int128<T>;
+
 template <typename T>
 constexpr char const* cat()
 {
     constexpr bool cv = std::is_const_v<T> || std::is_volatile_v<T>;
     // clang-format off
     if constexpr (std::is_void_v<T>) { return cv ? "void+cv" : "void"; }
+    else if constexpr (is_int128<T>) { return cv ? "extended_integer+cv" : "extended_integer"; }
     else if constexpr (std::is_null_pointer_v<T>) { return cv ? "nullptr_t+cv" : "nullptr_t"; }
     else if constexpr (std::is_same_v<std::remove_cv_t<T>, bool>) { return cv ? "bool+cv" : "bool"; }
     else if constexpr (std::is_integral_v<T> && !std::is_same_v<std::remove_cv_t<T>, char> && (std::is_same_v<std::remove_cv_t<T>, wchar_t> || std::is_same_v<std::remove_cv_t<T>, char8_t> || std::is_same_v<std::remove_cv_t<T>, char16_t> || std::is_same_v<std::remove_cv_t<T>, char32_t>)) { return cv ? "wide_char+cv" : "wide_char"; }
@@ -334,6 +455,19 @@ constexpr char const* root_cause_class(char const* trait, std::size_t arity, boo
     return nullptr;
 }
 
+template <typename T, typename U>
+constexpr bool lacks_common_reference()
+{
+    if constexpr (requires {
+                      typename std::type_identity<std::remove_reference_t<T> const&>::type;
+                      typename std::type_identity<std::remove_reference_t<U> const&>::type;
+                  }) {
+        return !std::common_reference_with<std::remove_reference_t<T> const&, std::remove_reference_t<U> const&>;
+    } else {
+        return true;
+    }
+}
+
 /// the core type is the incomplete class (most std traits have a completeness precondition)
 template <typename T>
 inline constexpr bool incomplete_core
@@ -381,6 +515,24 @@ constexpr Cell make_cell(tl<A...>)
         if (char const* rc = root_cause_class(Tr::name, sizeof...(A), all_same<A...>(), first_decays<A...>())) {
             c.cls[0] = rc;
             c.cls[1] = c.cls[2] = c.cls[3] = nullptr;
+        }
+        // etl::assignable_from leaves out std's `common_reference_with<LHS const&, RHS const&>` clause (commented out in
+        // the header) because etl::common_reference is a stub (known finding): the operand pairs for which exactly
+        // that clause decides get their own class, computed from the case with std only
+        if constexpr (sizeof...(A) == 2 && str_eq(Tr::name, "assignable_from")) {
+            if constexpr (Tr::template ok<A...>) {
+                if (lacks_common_reference<A...>()) {
+                    c.cls[0] = "operands_without_common_reference";
+                    c.cls[1] = c.cls[2] = c.cls[3] = nullptr;
+                }
+            }
+        }
+        // n-ary facilities whose argument lists are long (construction from 2 / 3 arguments): class = category of the
+        // target + arity, so that one root cause is a handful of (subject, class) keys
+        if constexpr (requires { Tr::class_is_target_and_arity; }) {
+            c.cls[0] = coarse<typename first_of<A...>::type>();
+            c.cls[1] = sizeof...(A) == 3 ? "two_arguments" : (sizeof...(A) == 4 ? "three_arguments" : "other_arity");
+            c.cls[2] = c.cls[3] = nullptr;
         }
         // a facility may name its own argument classes (numeric_limits: the type; ratio: the value class)
         if constexpr (requires { Tr::template cls<typename first_of<A...>::type>(); }) {
